@@ -201,7 +201,7 @@ func runText(c *Case) Verdict {
 		v.Obs = map[string]interface{}{"first": o.V, "printed": printed, "second": second}
 		if second.K != "ok" || !EqualNode(*o.V, *second.V) {
 			v.Verdict = "mismatch"
-			v.Key = "roundtrip:" + mainFeature(strKind(*o.V), c.Text) + ":text:" + strKind(*o.V)
+			v.Key = "roundtrip-text:" + mainFeature(strKind(*o.V), c.Text) + ":" + strKind(*o.V)
 			v.Note = fmt.Sprintf("text %q reads as %s, prints as %q, which reads as %s %s", c.Text, Canon(*o.V), printed, second.K, second.Msg)
 			return v
 		}
